@@ -216,4 +216,6 @@ def cases(tier):
             cs.append(dict(name=f"engine.{e}.n3", fn=h_engine, params=dict(engine=e, n=3), weight=40, **R))
     cs.append(dict(name="wrap.cma", fn=h_library_wrap, params=dict(which="cma"), **R))
     cs.append(dict(name="wrap.local", fn=h_library_wrap, params=dict(which="local"), **R))
+    from .tstep import tree_cases
+    cs += tree_cases(PROPERTY, tier, hibernation_values=(False,)) + run_cases(PROPERTY, tier, hib_values=(False,))
     return cs
